@@ -58,7 +58,8 @@ SetFails(e) ==
         exp   == Put(c, st.raw, f, vbits)
         size  == Table[c].size
     IN
-    IF ~st.has \/ c # st.cls \/ ~HasField(c, e.f) \/ Len(e.raw) < size THEN {"UNKNOWN-EVENT"}
+    IF ~st.has \/ c # st.cls \/ ~HasField(c, e.f) THEN {"UNKNOWN-EVENT"}
+    ELSE IF Len(e.raw) < size \/ Len(st.raw) < size THEN {"C11", "C12", "NC"}          \* the object lost part of its header
     ELSE
         (IF \/ ~(Has(e.get, e.f) /\ LowBits(e.get[e.f], f.w) = vbits)
             \/ \E g \in Known(c, e.get) \cap DOMAIN st.get : g # e.f /\ ~Overlap(FieldOf(c, g), f) /\ e.get[g] # st.get[g]
@@ -84,7 +85,8 @@ BuildFails(e) ==
         a   == e.args
         hdr == st.raw
     IN
-    IF ~st.has \/ c # st.cls \/ c \notin Builders \/ Len(hdr) < Table[c].size \/ Has(e, "nobuilder") THEN {"UNKNOWN-EVENT"}
+    IF ~st.has \/ c # st.cls \/ c \notin Builders \/ Has(e, "nobuilder") THEN {"UNKNOWN-EVENT"}
+    ELSE IF Len(hdr) < Table[c].size THEN {"C13", "NC"}                                    \* nothing left to build on
     ELSE
     LET exp == IF c \in DataClasses THEN RenderData(c, hdr, a.data)
                ELSE IF c = "cm" THEN RenderCm(hdr, a.desc, a.serial, a.hw, a.sw, a.vendor)
